@@ -1,6 +1,6 @@
 """C33 — Printing a syntax tree and parsing it gives the same tree.
 
-Proof: GardenVerif.Props.C33 (`parse_print_partial`: operator / call / parenthesis fragment).
+Proof: GardenVerif.Props.C33 (`parse_print`: whole files, every node kind; `parse_print_stmt`, `parse_print_block`).
 Correspondence + direct oracle over the WHOLE grammar (every node kind, definitions included):
 generated well-formed trees (harness/tree_gen.py) -> canonical text (`Print.printItems`/`render` through
 the driver op `print_tree`) -> REAL lexer and parser (hook ops `lex`, `ast`):
@@ -61,10 +61,45 @@ def string_trees():
     return out
 
 
+def exotic_trees():
+    """Deterministic trees at the edge of what the grammar can express (all inside `RT.WT` of Props/C33.lean):
+    a statement form (`let`, assignment, `+=`, `return`) as the right operand of the LAST operator of a chain,
+    and a bare `return` ending an argument / element / condition (the printer then breaks the line before the
+    separator)."""
+    x, y, one = ("var", "x"), ("var", "y"), ("int", 1)
+    r0 = ("return", None)
+    stmts = [("assign", "y", one), ("update", "+=", "y", one), ("let", ("sym", "z"), None, one), ("return", one), r0,
+             ("let", ("destr", ["a", "b"]), ("hint", "Foo", []), ("binop", "*", x, one))]
+    out = []
+    for st in stmts:
+        out.append([("expr", ("binop", "+", x, st))])
+        out.append([("expr", ("binop", "-", ("binop", "*", x, y), st))])
+        out.append([("expr", ("paren", ("binop", "==", ("call", ("var", "f"), [x]), st))), ("expr", y)])
+        out.append([("expr", ("call", ("var", "f"), [("binop", "+", x, st), y]))])
+        out.append([("expr", ("binop", "+", x, ("assign", "y", ("binop", "*", y, st))))])
+    for holder in [lambda e: ("call", ("var", "f"), [e]), lambda e: ("call", ("var", "f"), [e, one]),
+                   lambda e: ("call", ("var", "f"), [one, e]), lambda e: ("mcall", x, "m", [e]),
+                   lambda e: ("list", [e]), lambda e: ("list", [e, one]), lambda e: ("tuple", [e]),
+                   lambda e: ("tuple", [e, one]), lambda e: ("tuple", [one, e]), lambda e: ("paren", e),
+                   lambda e: ("assert", e), lambda e: ("dict", [(e, one)]), lambda e: ("dict", [(one, e), (x, y)]),
+                   lambda e: ("structlit", "Foo", [("a", e), ("b2", one)]),
+                   lambda e: ("if", e, ("block", [one]), None), lambda e: ("while", e, ("block", [])),
+                   lambda e: ("for", ("sym", "i"), e, ("block", [("continue",)])),
+                   lambda e: ("match", e, [("Some", ("sym", "v"), ("block", [("var", "v")]))])]:
+        for e in [r0, ("let", ("sym", "z"), None, r0), ("assign", "y", r0), ("return", r0),
+                  ("binop", "+", x, r0)]:
+            out.append([("expr", holder(e)), ("expr", y)])
+            out.append([("fun", False, "foo", ([], [], None, ("block", [holder(e), x])))])
+    return out
+
+
 def run(ctx):
     rng = ctx.rng
     cases = string_trees()
     knobs = [dict(stream="string-boundaries") for _ in cases]
+    ex = exotic_trees()
+    cases += ex
+    knobs += [dict(stream="grammar-edge") for _ in ex]
     n = ctx.scale(2500, 40000)
     max_depth = ctx.scale(4, 6)
     for i in range(n):
@@ -133,7 +168,7 @@ def run(ctx):
     if missing:
         ctx.broken.append({"kind": "harness", "what": "generator never produced node kinds", "detail": missing})
     ctx.assumptions += [
-        "Lean theorem covers the operator/call/parenthesis fragment only (parse_print_partial); the other node kinds "
-        "are covered by this run, not by proof",
+        "the Lean theorem (C33.parse_print) is about the parser MODEL on Print.lexOf; it quantifies over the trees RT.WT / "
+        "RT.WTI (every node kind; side conditions listed in Props/C33.lean), which include every tree generated here",
         "value_is_used flags, syntax ids and positions are not part of the compared tree",
         "Print.lexOf is tied to the real lexer by the token comparison in this run"]
